@@ -205,6 +205,13 @@ func (c callCase) String() string {
 }
 
 func replay(sub string, raw json.RawMessage) ([]h.Failure, error) {
+	if sub == "varinput" {
+		var p progCase
+		if err := json.Unmarshal(raw, &p); err != nil {
+			return nil, err
+		}
+		return checkVarInputText(p.Src), nil
+	}
 	if sub == "illtyped" {
 		var p progCase
 		if err := json.Unmarshal(raw, &p); err != nil {
